@@ -240,6 +240,68 @@ theorem msc_displacement_le_cap (calcLen safety tol geomLimit l : ℝ)
   have : (1 - tol) * safety < safety := by nlinarith
   linarith [this, ‹l ≤ (1 - tol) * safety ∧ l ≤ calcLen ∧ geomLimit ≤ l›.1]
 
+/-! ### whole histories: any number of steps -/
+
+/-- what one step feeds `TimeUpdater` / `TrackUpdater`: status after the along-step, post-step
+    action, step length, cross section, kinetic energy and mass -/
+structure HistStep where
+  st : Status
+  psa : Act
+  step : ℝ
+  xs : ℝ
+  e : ℝ
+  m : ℝ
+
+/-- a track's lab time after a history of steps -/
+noncomputable def timeAfter (t : ℝ) (h : List HistStep) : ℝ :=
+  h.foldl (fun t s => timeUpdater s.st t s.step s.e s.m) t
+
+/-- a track's step counter after a history of steps -/
+noncomputable def countAfter (n : Nat) (h : List HistStep) : Nat :=
+  h.foldl (fun n s => (trackUpdater s.st s.psa (0 : ℝ) s.step s.xs n).2) n
+
+/-- ★ over ANY history of steps with non-negative lengths a track's time never runs backwards:
+    the time after any prefix is at most the time after the whole history -/
+theorem time_monotone_over_history (t : ℝ) (h₁ h₂ : List HistStep)
+    (hs : ∀ s ∈ h₁ ++ h₂, 0 ≤ s.step) :
+    t ≤ timeAfter t h₁ ∧ timeAfter t h₁ ≤ timeAfter t (h₁ ++ h₂) := by
+  have key : ∀ (h : List HistStep) (t : ℝ), (∀ s ∈ h, 0 ≤ s.step) → t ≤ timeAfter t h := by
+    intro h
+    induction h with
+    | nil => intro t _; exact le_refl _
+    | cons a l ih =>
+      intro t hl
+      have h1 : t ≤ timeUpdater a.st t a.step a.e a.m :=
+        time_nondecreasing a.st t a.step a.e a.m (hl a (by simp))
+      have h2 := ih (timeUpdater a.st t a.step a.e a.m) (fun s hm => hl s (by simp [hm]))
+      simp only [timeAfter, List.foldl_cons] at h2 ⊢
+      exact le_trans h1 h2
+  refine ⟨key h₁ t (fun s hm => hs s (by simp [hm])), ?_⟩
+  have : timeAfter t (h₁ ++ h₂) = timeAfter (timeAfter t h₁) h₂ := by
+    simp [timeAfter, List.foldl_append]
+  rw [this]
+  exact key h₂ _ (fun s hm => hs s (by simp [hm]))
+
+/-- ★ the step counter counts exactly the steps that did not error: after any history the
+    counter has advanced by the number of non-errored steps (so it is the length of the history
+    for a track that never errors, and never exceeds it) -/
+theorem step_counter_counts_steps (n : Nat) (h : List HistStep) :
+    countAfter n h = n + (h.filter (fun s => !(s.st == .errored))).length := by
+  induction h generalizing n with
+  | nil => simp [countAfter]
+  | cons a l ih =>
+    have hstep : (trackUpdater a.st a.psa (0 : ℝ) a.step a.xs n).2
+        = if a.st == .errored then n else n + 1 := by
+      unfold trackUpdater
+      split
+      · rfl
+      · split <;> rfl
+    simp only [countAfter, List.foldl_cons] at ih ⊢
+    rw [hstep, ih]
+    by_cases he : (a.st == .errored) = true
+    · simp [he]
+    · simp [he]; omega
+
 /-! ### non-vacuity -/
 
 /-- physics step (1/100) below the MSC floor (1/10): the physics step is returned, not the floor -/
